@@ -153,7 +153,7 @@ def grep_gate(only=None):
                             scopes.pop()
                     elif kw == "Section":
                         scopes.append(("S", name))
-                    elif not assign:
+                    elif not assign and name not in ("Import", "Export"):
                         scopes.append(("M", name))
                 if DECL_RE.match(code) and not any(k == "S" for k, _ in scopes):
                     # outside every Section these declare axioms (Coq 8.16 only warns: local-declaration)
